@@ -25,18 +25,14 @@ Definition rt_at (wk wp bk : N) (btm : bool) : bool :=
   if (1 <=? rank_of wp)%Z && (rank_of wp <=? 6)%Z
   then kpk_eqb (kpk_of_index (index_of_kpk p)) p && (index_of_kpk p <? 393216)
   else true.
-Definition rt_bk (wk wp bk : N) : bool := rt_at wk wp bk true && rt_at wk wp bk false.
-Definition rt_wp (wk wp : N) : bool := forallN 64 (rt_bk wk wp).
-Definition rt_wk (wk : N) : bool := forallN 64 (rt_wp wk).
-Definition roundtrip_check : bool := forallN 64 rt_wk.
-Lemma roundtrip_ok : roundtrip_check = true.
+Lemma roundtrip_ok :
+  forallN 64 (fun wk => forallN 64 (fun wp => forallN 64 (fun bk => rt_at wk wp bk true && rt_at wk wp bk false))) = true.
 Proof. vm_cast_no_check (eq_refl true). Qed.
 
 Lemma rt_all (wk wp bk : N) (btm : bool) : wk < 64 -> wp < 64 -> bk < 64 -> rt_at wk wp bk btm = true.
 Proof.
   intros Hwk Hwp Hbk.
-  pose proof (forallN_spec 64 rt_wk roundtrip_ok wk Hwk) as R1. unfold rt_wk in R1.
-  pose proof (forallN_spec 64 (rt_wp wk) R1 wp Hwp) as R2. unfold rt_wp in R2.
-  pose proof (forallN_spec 64 (rt_bk wk wp) R2 bk Hbk) as R3. unfold rt_bk in R3.
+  pose proof (forallN_spec _ _ (forallN_spec _ _ (forallN_spec _ _ roundtrip_ok wk Hwk) wp Hwp) bk Hbk) as R3.
+  cbv beta in R3.
   apply andb_prop in R3. destruct btm; tauto.
 Qed.
